@@ -155,7 +155,7 @@ HARNESSES = {
 
 CTX = [
     ("olist-start", JS, [{"v": "a"}, "7. x\n"]), ("nested-image", JS, ["![a ![", {"v": "a"}, "](y)](x)\n"]), ("empty-inline", JS, ["# \n\n", {"v": "a"}, "\n"]),
-    ("table-align", JS, ["a|b\n:-|-:\n1|", {"v": "a"}, "\n"]), ("labels", JSX, ["[a]: /x 't'\n\n[x", {"v": "a"}, "y][a] ![i][a]\n"]),
+    ("table-align", JS, ["a|b\n:-|-:\n1|", {"v": "a"}, "\n"]), ("labels", JSX, ["[a]: /x 't'\n\n[x][a] ![i][a] z", {"v": "a"}, "\n"]),
     ("fence-info", JS, ["```", {"v": "a"}, " b\nc\n```\n"]), ("emph-link", JS, ["*[t](u)* `", {"v": "a"}, "` <b>\n"]),
     ("html-on", CM, ["<div>\n", {"v": "a"}, "</div>\n\nx <i>y</i>\n"]), ("hard-soft", JS, ["a  \nb\n", {"v": "a"}, "\n"]),
     ("tight-loose", JS, ["- a\n- ", {"v": "a"}, "\n\n  b\n"]),
